@@ -353,7 +353,10 @@ pub fn generate(rng: &mut Rng, property: &str, deep: bool) -> Scn {
         let cur_m = spec.states[book.cur].as_ref();
         let tau_s = book.tau.as_secs_f64();
         let mut dt: Option<(f32, Fault)> = None;
-        if rng.chance(tk.p_astro) {
+        // (a state whose timeline outlasts the clock's range gets astronomical frames often:
+        // nothing else can bring its end within reach)
+        let outlasts_clock = cur_m.map(|m| oracle::merged_total(m).map(|t| t > 1.0e19).unwrap_or(false)).unwrap_or(false);
+        if rng.chance(if outlasts_clock { 0.35 } else { tk.p_astro }) {
             // including the largest number of seconds a Duration can hold (2^64, as f32) and
             // its two neighbours
             let dmax = Duration::MAX.as_secs_f32();
